@@ -387,3 +387,14 @@ package executor
 //@   ensures forall k Bytes :: has(globalPlugins, k) ==> exists i :: 0 <= i && i < len(result) && result[i] == k
 //@   loop 0 invariant forall j :: 0 <= j && j < len(names) ==> visited(names[j]) && has(globalPlugins, names[j])
 //@   loop 0 invariant forall k Bytes :: visited(k) ==> exists j :: 0 <= j && j < len(names) && names[j] == k
+
+// ---- C13: the plugin flag record of the genesis block does not depend on process-local state ---------------
+// checkFlag caches the flag in the process-wide plugin singleton (base.flag). Whatever that cache holds,
+// executing the block of height 0 emits exactly one flag record FlagKV(flagKey, 1), and no other height emits any.
+//@ pure func github.com/33cn/chain33/types.FlagKV
+//@ func (*pluginBase).checkFlag [C13]
+//@   opt safety=assumed
+//@   ensures !enable ==> len(result0) == 0 && !result1 && result2 == nil
+//@   ensures enable && executor.height == 0 && result2 == nil ==> result1 && len(result0) == 1 && called(FlagKV) && result0[0] == ret(FlagKV)
+//@   ensures enable && executor.height != 0 && result2 == nil ==> result1 && len(result0) == 0
+//@   assert@call FlagKV: arg0 == flagKey && arg1 == 1
